@@ -230,6 +230,7 @@ def run(case, ctx):
     sc = importlib.import_module("rig.machine_control.scp_connection")
     consts = importlib.import_module("rig.machine_control.consts")
     tmp = tempfile.mkdtemp(prefix="rv-c20-")
+    cwd0 = os.getcwd()
     nt = False
     had_options = False
     try:
@@ -246,6 +247,17 @@ def run(case, ctx):
                 import pathlib
                 path = pathlib.Path(path)       # a file name all the same
                 ctx.hit("image_named_by_path_object")
+            elif (bi + b["size"]) % 5 == 0:
+                # the image named relative to the working directory, under
+                # the name its build gives it (which is also the name of the
+                # image bundled with the library)
+                ctx.hit("image_named_relative_to_cwd")
+                sub = os.path.join(tmp, "build%d" % bi)
+                os.makedirs(sub, exist_ok=True)
+                with open(os.path.join(sub, "scamp.boot"), "wb") as f:
+                    f.write(image)
+                os.chdir(sub)
+                path = "scamp.boot"
             options = {}
             kwargs = dict(b["kw"])
             if b["preset"]:
@@ -387,6 +399,7 @@ def run(case, ctx):
                 had_options = True
             last_opts = set(options)
     finally:
+        os.chdir(cwd0)
         shutil.rmtree(tmp, ignore_errors=True)
     if nt:
         ctx.mark_nontrivial()
